@@ -38,18 +38,9 @@ def crc_fields(data):
     parser, independent of lbzip2)."""
     _, infos, meta = B.strict_decode(data, want_info=True, full=False)
     out = [('block', i['bit_start'] + 48) for i in infos]
-    # stream CRCs: scan for the EOS magic at the bit position where each
-    # stream's blocks end
-    pos = 0
-    r = B.BitReader(data)
-    streams = sorted(set(i['stream'] for i in infos))
-    ends = {}
-    for i in infos:
-        ends[i['stream']] = i['bit_end']
-    for s in streams:
-        e = ends[s]
-        r.pos = e
-        assert r.get(48) == B.EOS_MAGIC
+    # every stream's CRC (also of streams without blocks) follows its
+    # end-of-stream magic
+    for e in meta['eos_bits']:
         out.append(('stream', e + 48))
     return out
 
@@ -70,8 +61,46 @@ if exe:
     files.append(('real-1blk-l9', bz2.compress(b'hello world ' * 99, 9)))
     files.append(('real-concat', bz2.compress(b'first', 1) +
                   bz2.compress(big[:110000], 1) + bz2.compress(b'', 9)))
+    # streams whose CRC has zero halves (empty streams), between other streams
+    # ... at each of the four byte alignments relative to the 32-bit words
+    # the parser loads (file offset - 4 header bytes)
+    seen_al = set()
+    for k in range(200):
+        w = B.BitWriter()
+        B.make_stream(w, [(bytes(rng.randrange(256) for _ in
+                                 range(rng.randrange(1, 30))), {})], 9, rng)
+        pre = len(w.bytes())
+        al = (pre + 4 + 6 - 4) % 4      # offset of the empty stream's CRC
+        if al in seen_al:
+            continue
+        seen_al.add(al)
+        B.make_stream(w, [], 5, rng)
+        B.make_stream(w, [(b'tail', {}), (b'stream' * 7, {})], 1, rng)
+        files.append(('struct-empty-mid-al%d' % al, w.bytes()))
+        if len(seen_al) == 4:
+            break
+    w = B.BitWriter()
+    B.make_stream(w, [], 9, rng)
+    B.make_stream(w, [(b'x', {})], 9, rng)
+    files.append(('struct-empty-first', w.bytes()))
     jobs = []
     meta = []
+    # the header parser is resumable: put input-buffer boundaries at every
+    # word of the small files, so that some fall between the two 16-bit
+    # halves of a CRC field
+    for name, data in files:
+        if len(data) > 2500:
+            continue
+        flds = crc_fields(data)
+        for kind, off in flds:
+            for b in range(32):
+                mut = C.flipbit(data, off + b)
+                for ig in (4, 12, 20):
+                    jobs.append(dict(exe=exe, args=['-d', '-n2'], data=mut,
+                                     timeout=60,
+                                     env={'LBZIP2_VERIF_IN_GRANUL': str(ig)}))
+                    meta.append((name + '@granul%d' % ig, kind, off, b, 2,
+                                 mut))
     for name, data in files:
         flds = crc_fields(data)
         fields_total += len(flds)
